@@ -372,6 +372,9 @@ func (e *Engine) ifaceContract(fn *types.Func, recv *Val) *Contract {
 	if c, ok := e.db.Contracts[externKey(fn)]; ok {
 		return c
 	}
+	if fn.Pkg() != nil && e.db.PurePkgs[fn.Pkg().Path()] {
+		return e.contractFor(fn)
+	}
 	return nil
 }
 
